@@ -306,7 +306,7 @@ func (g *verifGen) stmtWith(tmpl, depth int) string {
 	case 39:
 		return L + ":\na++\nif " + B() + " {\ngoto " + L + "\n}"
 	case 40:
-		return "{\n" + S() + "\n" + S() + "\n}"
+		return "{\n" + S() + "\n{\n" + S() + "\n}\n}"
 	case 41:
 		return "if " + B() + " {\nreturn\n}"
 	case 42:
@@ -939,7 +939,7 @@ func VerifH_C02_roundtrip() {
 	tmpl := vp.Choose("stmt", verifNStmt)
 	g.focus = 1 + vp.Choose("focus", 14)
 	if vp.Thorough() {
-		g.focus2 = g.focus + vp.Choose("focus2", 4) // 0: none; else a following hole
+		g.focus2 = g.focus + vp.Choose("focus2", 2) // 0: none; 1: the next hole ranges over its pool too
 		if g.focus2 == g.focus {
 			g.focus2 = 0
 		}
